@@ -124,6 +124,8 @@ pub enum X {
     Tower(UnOp, u32, Box<X>),
     /// sugar: left-nested chain ((a op b) op c) op …
     Chain(BinOp, Vec<X>),
+    /// sugar: the list [f(i<from>), f(i<from+1>), … ] of `n` calls
+    ManyCalls(String, i64, u32),
 }
 
 impl X {
@@ -167,6 +169,7 @@ impl X {
                 }
                 acc
             }
+            X::ManyCalls(f, from, n) => X::Vec((0..*n as i64).map(|i| X::call(f, X::int(from + i))).collect()),
             X::Val(_) | X::Ref(_) | X::Sym(_) => self.clone(),
             X::Call(n, a) => X::Call(n.clone(), Box::new(a.desugar())),
             X::Idx(a, i) => X::Idx(Box::new(a.desugar()), i.clone()),
@@ -180,13 +183,14 @@ impl X {
     }
 
     pub fn has_sugar(&self) -> bool {
-        matches!(self, X::Tower(..) | X::Chain(..)) || self.children().into_iter().any(|c| c.has_sugar())
+        matches!(self, X::Tower(..) | X::Chain(..) | X::ManyCalls(..)) || self.children().into_iter().any(|c| c.has_sugar())
     }
 
     pub fn node_count(&self) -> usize {
         1 + match self {
             X::Tower(_, _, a) => a.node_count(),
             X::Chain(_, v) => v.iter().map(|x| x.node_count()).sum(),
+            X::ManyCalls(..) => 0,
             X::Val(_) | X::Ref(_) | X::Sym(_) => 0,
             X::Call(_, a) | X::Idx(a, _) | X::Un(_, a) => a.node_count(),
             X::If(a, b, c) => a.node_count() + b.node_count() + c.node_count(),
@@ -199,7 +203,7 @@ impl X {
     /// Immediate children, in constructor order.
     pub fn children(&self) -> Vec<&X> {
         match self {
-            X::Val(_) | X::Ref(_) | X::Sym(_) => vec![],
+            X::Val(_) | X::Ref(_) | X::Sym(_) | X::ManyCalls(..) => vec![],
             X::Call(_, a) | X::Idx(a, _) | X::Un(_, a) => vec![a],
             X::If(a, b, c) => vec![a, b, c],
             X::Map(m) => m.iter().map(|(_, x)| x).collect(),
@@ -212,7 +216,7 @@ impl X {
 
     pub fn children_mut(&mut self) -> Vec<&mut X> {
         match self {
-            X::Val(_) | X::Ref(_) | X::Sym(_) => vec![],
+            X::Val(_) | X::Ref(_) | X::Sym(_) | X::ManyCalls(..) => vec![],
             X::Call(_, a) | X::Idx(a, _) | X::Un(_, a) => vec![a],
             X::If(a, b, c) => vec![a, b, c],
             X::Map(m) => m.iter_mut().map(|(_, x)| x).collect(),
@@ -239,6 +243,7 @@ impl X {
             X::In(..) => "In".into(),
             X::Tower(op, ..) => format!("Tower{op:?}"),
             X::Chain(op, ..) => format!("Chain{op:?}"),
+            X::ManyCalls(..) => "ManyCalls".into(),
         }
     }
 }
@@ -311,7 +316,7 @@ pub fn to_expr(x: &X) -> Expr {
         X::Un(op, a) => un_expr(*op, to_expr(a)),
         X::Bin(op, a, b) => bin_expr(*op, to_expr(a), to_expr(b)),
         X::In(item, coll) => Expr::contains(to_expr(coll), to_expr(item)),
-        X::Tower(..) | X::Chain(..) => to_expr(&x.desugar()),
+        X::Tower(..) | X::Chain(..) | X::ManyCalls(..) => to_expr(&x.desugar()),
     }
 }
 
@@ -511,7 +516,7 @@ fn text_into(x: &X, out: &mut String) {
             text_into(coll, out);
             out.push_str("))");
         }
-        X::Tower(..) | X::Chain(..) => text_into(&x.desugar(), out),
+        X::Tower(..) | X::Chain(..) | X::ManyCalls(..) => text_into(&x.desugar(), out),
     }
 }
 
